@@ -631,7 +631,10 @@ pub fn div<
         // Optimize division as multiplication-by-reciprocal.
         //
         // This loses some precision, so we might want to revisit this in future.
-        (false, Some(scalar)) => mul(pool, a, Tensor::from_scalar(T::one() / *scalar).view()),
+        //
+        // The reciprocal keeps the shape of `b`, as that takes part in
+        // determining the shape of the broadcasted output.
+        (false, Some(scalar)) => mul(pool, a, Tensor::full(b.shape(), T::one() / *scalar).view()),
         _ => binary_op(pool, a, b, &|x, y| x / y),
     }
 }
